@@ -33,11 +33,11 @@ fn base_case(prop: &str, seed: u64) -> (Case, Rng) {
 
 fn log_setup(case: &mut Case, rng: &mut Rng) {
     let topics = case.gen.topics;
-    case.setup.push(Op::CreateStream { c: 0, id: Some(1), name: "s1".into() });
+    case.setup.push(Op::CreateStream { c: 0, id: Some(1), name: "str-1".into() });
     for t in 1..=topics {
         let expiry = rng.pick(&case.gen.topic_expiry).clone();
         let max_size = rng.pick(&case.gen.topic_max_size).clone();
-        case.setup.push(Op::CreateTopic { c: 0, stream: IdRef::Num(1), id: Some(t), name: format!("t{t}"), partitions: case.gen.partitions, expiry, max_size, replication: None, compression: 1 });
+        case.setup.push(Op::CreateTopic { c: 0, stream: IdRef::Num(1), id: Some(t), name: format!("top-{t}"), partitions: case.gen.partitions, expiry, max_size, replication: None, compression: 1 });
     }
 }
 
@@ -125,6 +125,128 @@ pub fn make_case(prop: &str, seed: u64) -> Case {
             mix.send = mix.send.max(10);
             case.gen.mix = mix;
             log_setup(&mut case, &mut rng);
+        }
+        "C14" => {
+            // expiring topics next to never-expiring controls; jumps on both sides of the expiry
+            case.gen.topics = 1 + rng.below(3) as u32;
+            case.gen.partitions = 1 + rng.below(2) as u32;
+            case.gen.ops = 20 + rng.below(80) as u32;
+            let expiry = *rng.pick(&[1_000_000u64, 2_000_000, 10_000_000, 3_600_000_000]);
+            case.gen.topic_expiry = vec![Expiry::Micros(expiry), Expiry::Micros(expiry), Expiry::Never, Expiry::ServerDefault];
+            case.gen.jump_micros = vec![expiry / 2, expiry, expiry * 2];
+            case.knobs.segment_size = *rng.pick(&[400, 1024, 4096]);
+            case.knobs.default_expiry_micros = if rng.chance(0.3) { expiry } else { 0 };
+            let mut mix = Mix { send: 40, poll: 8, flush: 3, job_save: 3, job_maintain: 14, restart_clean: 5, restart_flush_kill: 1, purge: 1, tick: 8, jump: 12, update_topic: 4, audit: 5, get_topic: 3, ..Default::default() };
+            perturb(&mut rng, &mut mix);
+            mix.job_maintain = mix.job_maintain.max(6);
+            mix.jump = mix.jump.max(6);
+            mix.send = mix.send.max(10);
+            case.gen.mix = mix;
+            log_setup(&mut case, &mut rng);
+        }
+        "C15" => {
+            case.gen.topics = 1 + rng.below(3) as u32;
+            case.gen.partitions = 1 + rng.below(2) as u32;
+            case.gen.ops = 20 + rng.below(80) as u32;
+            let seg = *rng.pick(&[400u64, 1024, 4096]);
+            case.knobs.segment_size = seg;
+            case.knobs.delete_oldest_segments = rng.chance(0.5);
+            case.knobs.default_max_topic_size = if rng.chance(0.3) { seg * 2 } else { 0 };
+            case.gen.topic_max_size = vec![MaxSize::Bytes(seg), MaxSize::Bytes(seg * 2), MaxSize::Bytes(seg * 5), MaxSize::Unlimited, MaxSize::ServerDefault, MaxSize::Bytes(seg / 2), MaxSize::Bytes(seg - 1)];
+            case.gen.payload_lens = vec![10, 50, 100, 200, 300];
+            let mut mix = Mix { send: 50, poll: 5, flush: 3, job_save: 3, job_maintain: 10, restart_clean: 2, purge: 1, tick: 4, update_topic: 6, audit: 4, get_topic: 4, catalogue: 3, ..Default::default() };
+            perturb(&mut rng, &mut mix);
+            mix.send = mix.send.max(20);
+            mix.job_maintain = mix.job_maintain.max(4);
+            case.gen.mix = mix;
+            // setup: the invalid limits are tried by create_topic too (they must be rejected)
+            case.setup.push(Op::CreateStream { c: 0, id: Some(1), name: "str-1".into() });
+            for t in 1..=case.gen.topics + 1 {
+                let max_size = rng.pick(&case.gen.topic_max_size).clone();
+                case.setup.push(Op::CreateTopic { c: 0, stream: IdRef::Num(1), id: Some(t), name: format!("top-{t}"), partitions: case.gen.partitions, expiry: Expiry::Never, max_size, replication: None, compression: 1 });
+            }
+        }
+        "C17" => {
+            case.gen.topics = 1 + rng.below(2) as u32;
+            case.gen.partitions = 1 + rng.below(6) as u32;
+            case.gen.ops = 20 + rng.below(100) as u32;
+            case.gen.part_id_weight = 3;
+            case.gen.part_balanced_weight = 4;
+            case.gen.part_key_weight = 4;
+            case.gen.invalid_partition_chance = 0.25;
+            case.gen.batch_sizes = vec![1, 1, 2, 3, 5];
+            let mut mix = Mix { send: 60, poll: 4, flush: 2, job_save: 2, restart_clean: 3, purge: 1, tick: 3, partitions: 8, audit: 3, get_topic: 2, ..Default::default() };
+            perturb(&mut rng, &mut mix);
+            mix.send = mix.send.max(30);
+            mix.partitions = mix.partitions.max(3);
+            case.gen.mix = mix;
+            log_setup(&mut case, &mut rng);
+        }
+        "C18" => {
+            case.knobs.dedup = !rng.chance(0.15);
+            case.gen.topics = 1;
+            case.gen.partitions = 1 + rng.below(2) as u32;
+            case.gen.ops = 20 + rng.below(80) as u32;
+            case.gen.repeat_id_chance = 0.3;
+            case.gen.zero_id_chance = 0.05;
+            let mut mix = Mix { send: 60, poll: 6, flush: 5, job_save: 5, restart_clean: 8, restart_flush_kill: 3, purge: 2, tick: 3, audit: 6, ..Default::default() };
+            perturb(&mut rng, &mut mix);
+            mix.send = mix.send.max(30);
+            mix.restart_clean = mix.restart_clean.max(3);
+            case.gen.mix = mix;
+            log_setup(&mut case, &mut rng);
+        }
+        "C05" | "C06" | "C13" => {
+            case.gen.topics = rng.below(2) as u32;
+            case.gen.partitions = 1 + rng.below(3) as u32;
+            case.gen.ops = 30 + rng.below(120) as u32;
+            case.gen.clients = 1 + rng.usize_below(3);
+            case.gen.named_ids_chance = 0.4;
+            case.gen.invalid_chance = if prop == "C05" { 0.05 } else { 0.25 };
+            case.gen.topic_expiry = vec![Expiry::Never, Expiry::ServerDefault, Expiry::Micros(3_600_000_000)];
+            case.gen.topic_max_size = vec![MaxSize::Unlimited, MaxSize::ServerDefault, MaxSize::Bytes(case.knobs.segment_size * 3)];
+            case.gen.batch_sizes = vec![1, 2, 5];
+            let mut mix = Mix {
+                catalogue: 40,
+                groups: 14,
+                users: 10,
+                send: 10,
+                poll: 4,
+                partitions: 6,
+                purge: 3,
+                get_topic: 8,
+                audit: 6,
+                store_offset: 3,
+                restart_clean: if prop == "C05" { 10 } else { 2 },
+                restart_flush_kill: if prop == "C05" { 3 } else { 0 },
+                connect: 3,
+                tick: 3,
+                ..Default::default()
+            };
+            perturb(&mut rng, &mut mix);
+            mix.catalogue = mix.catalogue.max(20);
+            if prop == "C05" {
+                mix.restart_clean = mix.restart_clean.max(5);
+            }
+            case.gen.mix = mix;
+            log_setup(&mut case, &mut rng);
+        }
+        "C07" => {
+            case.gen.topics = 1 + rng.below(2) as u32;
+            case.gen.partitions = 1 + rng.below(3) as u32;
+            case.gen.ops = 30 + rng.below(100) as u32;
+            case.gen.clients = 1 + rng.usize_below(3);
+            let mut mix = Mix { send: 20, poll: 25, flush: 2, job_save: 2, restart_clean: 5, restart_flush_kill: 2, purge: 3, tick: 3, store_offset: 25, get_offset: 25, delete_offset: 8, audit: 4, groups: 10, ..Default::default() };
+            perturb(&mut rng, &mut mix);
+            mix.store_offset = mix.store_offset.max(10);
+            mix.get_offset = mix.get_offset.max(10);
+            mix.send = mix.send.max(10);
+            case.gen.mix = mix;
+            log_setup(&mut case, &mut rng);
+            // a group whose numeric id equals a consumer id used by the generator
+            for t in 1..=case.gen.topics {
+                case.setup.push(Op::CreateGroup { c: 0, stream: IdRef::Num(1), topic: IdRef::Num(t), id: Some(1 + rng.below(3) as u32), name: format!("grp-{t}") });
+            }
         }
         _ => {
             case.gen.mix = Mix { send: 10, poll: 10, tick: 2, audit: 1, ..Default::default() };
